@@ -71,10 +71,14 @@ CLIGHT = 2.99792458e10            # cm/s
 RT3 = math.sqrt(3.0)
 
 ALPHABET = {
-    "quick": {"opac": [1.0, 0.3, 5.0], "eps": [1.0, 0.1, 2.5], "trad_bc_ev": [1000.0, 150.0]},
+    # eps = 10 is in the quick alphabet too since the seeded change S-C18-2 (a shortcut valid only for eps <= 1)
+    "quick": {"opac": [1.0, 0.3, 5.0], "eps": [1.0, 0.1, 2.5, 10.0], "trad_bc_ev": [1000.0, 150.0]},
     "thorough": {"opac": [1.0, 0.3, 5.0, 20.0], "eps": [1.0, 0.1, 2.5, 0.4, 10.0], "trad_bc_ev": [1000.0, 150.0, 1.0, 2.0e4]},
 }
-TAUS = {"quick": [0.1, 1.0, 10.0], "thorough": [0.03, 0.1, 0.3, 1.0, 3.0, 10.0, 30.0]}
+TAUS = {"quick": [0.1, 1.0, 3.0, 10.0, 300.0], "thorough": [0.03, 0.1, 0.3, 1.0, 3.0, 10.0, 30.0, 300.0, 1000.0]}
+# late times carry their own far x lattice (the diffusion front is at x ~ 2 sqrt(tau/eps)); added after the seeded change
+# S-C18-3, whose error lives at x >~ 30, tau >~ 200, outside the published table's window
+XS_LATE = {300.0: [30.0, 45.0, 60.0], 1000.0: [40.0, 70.0, 100.0]}
 XS = {"quick": [0.0, 0.1, 0.5, 1.0, 2.5, 5.0], "thorough": [0.0, 0.1, 0.25, 0.5, 0.75, 1.0, 1.5, 2.5, 3.5, 5.0]}
 FAR = {"quick": [5.0, 10.0, 20.0], "thorough": [5.0, 10.0, 20.0, 40.0]}
 
@@ -130,10 +134,26 @@ class Sampler:
         xs = np.asarray(xs, float)
         z = xs / (RT3 * self.opac)                              # x = sqrt3 kappa z
         t = tau * self.alpha / (A4 * CLIGHT * self.opac)        # tau = 4 a c kappa t / alpha
-        sol = call(self.s, z, t)
-        self.calls += 1
-        tr = np.asarray(sol["temperature_rad"], float)
-        tm = np.asarray(sol["temperature_mat"], float)
+        try:
+            sol = call(self.s, z, t)
+            self.calls += 1
+            tr = np.asarray(sol["temperature_rad"], float)
+            tm = np.asarray(sol["temperature_mat"], float)
+        except Exception as ex:
+            # one point of the batch made the solver raise (e.g. a fractional power of a slightly negative energy): evaluate
+            # the points one by one so the others are still judged; a point with no returned temperatures is non-finite for
+            # the clauses below (seeded change S-C18-2 drove u negative near the front and the whole task used to be skipped)
+            self.raised = getattr(self, "raised", 0) + 1
+            self.raised_types = getattr(self, "raised_types", set()) | {type(ex).__name__}
+            tr = np.full(len(z), np.nan)
+            tm = np.full(len(z), np.nan)
+            for i_, z_ in enumerate(z):
+                try:
+                    s1 = call(self.s, np.array([z_]), t)
+                    tr[i_], tm[i_] = float(s1["temperature_rad"][0]), float(s1["temperature_mat"][0])
+                except Exception:
+                    pass
+                self.calls += 1
         self.dg.add(tr, tm)
         return (tr / self.tbc) ** 4, (tm / self.tbc) ** 4
 
@@ -170,8 +190,8 @@ def run_task(task):
     S = Sampler(s, cfg)
     vcfg = dict(cfg, eps=eps)
     key = "%s|%g" % (sorted(task["dev"].items()), tau)
-    xs_pde = [x for x in XS[tier] if x > 0]
-    xs_all = sorted(set(XS[tier]) | set(FAR[tier]))
+    xs_pde = [x for x in XS[tier] if x > 0] + XS_LATE.get(tau, [])
+    xs_all = sorted(set(XS[tier]) | set(FAR[tier]) | set(XS_LATE.get(tau, [])))
 
     def violation(clause, where, value, tol, detail):
         res["violations"].append({"solver": NAME, "cfg": vcfg, "clause": clause, "where": where,
